@@ -182,6 +182,8 @@ THREAD_COMPONENT = {}  # thread ident -> component name
 EDGES = {}  # (waiter, awaited) -> count
 EDGE_LOCK = threading.Lock()
 STOPS = []
+STARTS = []
+DIED = []
 CLASS_CODE = {}  # class -> numeric code (shutdown mode)
 
 
@@ -219,6 +221,26 @@ def install_pykka_instrumentation():
             THREAD_COMPONENT.pop(threading.get_ident(), None)
 
     _actor.Actor._actor_loop = actor_loop
+
+    from pykka import _registry
+
+    orig_register = _registry.ActorRegistry.register.__func__
+
+    def register(cls, actor_ref):
+        STARTS.append(CLASS_CODE.get(actor_ref.actor_class, actor_ref.actor_class.__name__))
+        return orig_register(cls, actor_ref)
+
+    _registry.ActorRegistry.register = classmethod(register)
+
+    orig_setup = _actor.Actor._actor_loop_setup
+
+    def _actor_loop_setup(self):
+        r = orig_setup(self)
+        if self.actor_stopped.is_set():  # on_start failed: the actor unregistered itself
+            DIED.append(CLASS_CODE.get(type(self), type(self).__name__))
+        return r
+
+    _actor.Actor._actor_loop_setup = _actor_loop_setup
 
     orig_stop = _actor.Actor._stop
 
@@ -500,6 +522,8 @@ def run_shutdown_case(case, wd):
 
     tmp = tempfile.mkdtemp(prefix="verif-c18-")
     del STOPS[:]
+    del STARTS[:]
+    del DIED[:]
     CLASS_CODE.clear()
     EDGES.clear()
     saves = []
@@ -667,6 +691,8 @@ def run_shutdown_case(case, wd):
             "escaped": escaped,
             "stops": [s if isinstance(s, int) else -1 for s in STOPS],
             "stop_names": [s for s in STOPS if not isinstance(s, int)],
+            "starts": [s if isinstance(s, int) else -1 for s in STARTS],
+            "died": sorted(s if isinstance(s, int) else -1 for s in DIED),
             "saves": len(saves),
             "state_file": os.path.exists(state_file),
             "left": left,
